@@ -114,10 +114,6 @@ def run_shape(args):
         # ---- reachability: the harness must reach its assertion on at least one path -------------
         if res.inconclusive is None and res.obligations == 0 and not res.nonterm:
             out['harness_errors'].append('no path reached an obligation (vacuous harness)')
-        need = set(shape.expected_outcomes())
-        missing = need - set(res.outcomes)
-        if res.inconclusive is None and missing:
-            out['harness_errors'].append(f'reachability: outcome classes never reached: {sorted(missing)}')
         # ---- witness replay (encoding validation) ----------------------------------------------
         if opts.get('replay_witnesses', True):
             for cls, model in list(res.witnesses.items())[:opts.get('max_witness', 3)]:
@@ -161,6 +157,10 @@ def run_shape(args):
             else:
                 out['harness_errors'].append(
                     f'counterexample did not reproduce on the real code: {v} real={rep["summary"]} judged={judged}')
+        need = set(shape.expected_outcomes())
+        missing = need - set(res.outcomes)
+        if res.inconclusive is None and missing and not out['known_hits']:
+            out['harness_errors'].append(f'reachability: outcome classes never reached: {sorted(missing)}')
         for nt in res.nonterm:
             out['harness_errors'].append(f'path budget exhausted (possible non-termination): {nt}') \
                 if not shape.nonterm_is_violation else None
